@@ -43,7 +43,7 @@ def handle (st : Option State) (line : String) : Option State × String :=
     match parseFlavour fl, n.toNat?, os.mapM parseOutcome with
     | some fl, some n, some os =>
       let entry := if en == "bg" then Entry.boundedGather else Entry.holdingPermit
-      let s := start fl (valueAtCall n entry) os
+      let s := start fl entry n os
       (some s, showState 0 s)
     | _, _, _ => (st, "bad-op")
   | ["finish", i], some s =>
